@@ -232,6 +232,7 @@ func c08WireCases(t *testing.T, rep *hx.Report, orc *hx.Oracle, rng *hx.RNG, per
 		for i := 0; i < perVariant; i++ {
 			mode := modes[i%len(modes)]
 			c := c05GenWire(rng, v, "")
+			c.EnobufsAt = -1 // send failures are C05/C10 material; here every run is expected to run to its end
 			c.Stream = "wire-" + mode
 			if mode == "silence" || mode == "flood" || mode == "bursts" {
 				c.Replies = map[int][]c05Reply{}
